@@ -21,21 +21,13 @@ func parseExprText(src string) string {
 		return "reject"
 	}
 	if len(prog.Body) != 1 {
-		return "reject" // more than one statement: not an expression of the fragment
+		return "reject:statements"
 	}
 	es, ok := prog.Body[0].(*ast.ExpressionStatement)
 	if !ok {
-		return "reject" // not an expression statement
+		return "reject:" + astx.Kind(prog.Body[0])
 	}
-	d := fromAST(es.Expression).String()
-	if strings.Contains(d, "other:") {
-		// The real parse left the modelled expression fragment (array/object/function/regexp literal).  This only happens
-		// when the scanner's token stream differs from the rendered tokens (region cr_peek swallows a character); the Lean
-		// model has no such nodes and answers `reject`, so the same token is used here.  Outside a deviation region the
-		// request is still a VIOLATION because the specification is a tree of the fragment.
-		return "reject"
-	}
-	return d
+	return fromAST(es.Expression).String()
 }
 
 func implC03(line string) string {
